@@ -212,6 +212,113 @@ def inline_return_temps(tree: ast.AST) -> int:
     return count
 
 
+def plain_annotated_locals(tree: ast.AST) -> int:
+    """Normalisation N4 (runs first, so that the other passes see plain assignments)."""
+    count = 0
+    # N4  inside functions, `x: T = v` (annotated local) is seen as the plain assignment `x = v`; the annotation is
+    #     kept on the node as `.annotation_` for rules that use declared types
+    class A(ast.NodeTransformer):
+        def __init__(self) -> None:
+            self.depth = 0
+
+        def _f(self, node):  # type: ignore[no-untyped-def]
+            self.depth += 1
+            self.generic_visit(node)
+            self.depth -= 1
+            return node
+
+        visit_FunctionDef = _f
+        visit_AsyncFunctionDef = _f
+
+        def visit_ClassDef(self, node: ast.ClassDef) -> ast.AST:
+            saved, self.depth = self.depth, 0
+            self.generic_visit(node)
+            self.depth = saved
+            return node
+
+        def visit_AnnAssign(self, node: ast.AnnAssign) -> ast.AST:
+            nonlocal count
+            self.generic_visit(node)
+            if self.depth > 0 and node.value is not None:
+                new = ast.Assign(targets=[node.target], value=node.value)
+                ast.copy_location(new, node)
+                new.end_lineno, new.end_col_offset = getattr(node, "end_lineno", None), getattr(node, "end_col_offset", None)
+                new.annotation_ = node.annotation  # type: ignore[attr-defined]
+                count += 1
+                return new
+            return node
+
+    A().visit(tree)
+
+    return count
+
+
+def normalise_conditionals(tree: ast.AST) -> int:
+    """Normalisation of `if` shapes (behaviour-preserving, both directions of three common refactorings collapse):
+      N1  `if not X: A else: B` (plain else, no elif)  ->  `if X: B else: A`
+      N2  `if a: if b: X` (no else on either, the inner `if` is the only statement)  ->  `if a and b: X`
+          (nested `and`s are flattened)
+    The statements keep their own line numbers; only the tree shape changes."""
+    count = 0
+
+    class T(ast.NodeTransformer):
+        def visit_If(self, node: ast.If) -> ast.AST:
+            nonlocal count
+            self.generic_visit(node)
+            if node.orelse and not (len(node.orelse) == 1 and isinstance(node.orelse[0], ast.If)) and isinstance(node.test, ast.UnaryOp) and isinstance(node.test.op, ast.Not):
+                node.test, node.body, node.orelse = node.test.operand, node.orelse, node.body
+                count += 1
+            if not node.orelse and len(node.body) == 1 and isinstance(node.body[0], ast.If) and not node.body[0].orelse:
+                inner = node.body[0]
+                vals: list[ast.expr] = []
+                for t in (node.test, inner.test):
+                    if isinstance(t, ast.BoolOp) and isinstance(t.op, ast.And):
+                        vals.extend(t.values)
+                    else:
+                        vals.append(t)
+                test = ast.BoolOp(op=ast.And(), values=vals)
+                ast.copy_location(test, node.test)
+                test.end_lineno, test.end_col_offset = getattr(inner.test, "end_lineno", None), getattr(inner.test, "end_col_offset", None)
+                node.test, node.body = test, inner.body
+                count += 1
+            return node
+
+    T().visit(tree)
+
+    # N3  a function whose LAST statement is `if c: <body>` (no else)  ->  `if not c: return` followed by <body>
+    #     (guard-clause form; repeated while it applies).  `not` is pushed into a single comparison (`is`/`is not`,
+    #     `==`/`!=`, `in`/`not in`, `<`/`>=`, ...) and double negation is removed, so that a developer's own guard clause
+    #     `if x is None: return` and the nested spelling `if x is not None: ...` meet in the same tree.
+    for fn in ast.walk(tree):
+        if not isinstance(fn, (ast.FunctionDef, ast.AsyncFunctionDef)):
+            continue
+        while fn.body and isinstance(fn.body[-1], ast.If) and not fn.body[-1].orelse:
+            last = fn.body[-1]
+            ret = ast.Return(value=None)
+            ast.copy_location(ret, last)
+            guard = ast.If(test=negate(last.test), body=[ret], orelse=[])
+            ast.copy_location(guard, last)
+            guard.end_lineno, guard.end_col_offset = getattr(last.test, "end_lineno", None), getattr(last.test, "end_col_offset", None)
+            fn.body = fn.body[:-1] + [guard] + last.body
+            count += 1
+    return count
+
+
+_NEG_OP = {ast.Is: ast.IsNot, ast.IsNot: ast.Is, ast.Eq: ast.NotEq, ast.NotEq: ast.Eq, ast.In: ast.NotIn, ast.NotIn: ast.In,
+           ast.Lt: ast.GtE, ast.GtE: ast.Lt, ast.Gt: ast.LtE, ast.LtE: ast.Gt}
+
+
+def negate(test: ast.expr) -> ast.expr:
+    """Logical negation in normal form: `not not x` -> `x`; `not (a is b)` -> `a is not b` (single comparison only)."""
+    if isinstance(test, ast.UnaryOp) and isinstance(test.op, ast.Not):
+        return test.operand
+    if isinstance(test, ast.Compare) and len(test.ops) == 1 and type(test.ops[0]) in _NEG_OP and not isinstance(test.ops[0], (ast.Lt, ast.GtE, ast.Gt, ast.LtE)):
+        new = ast.Compare(left=test.left, ops=[_NEG_OP[type(test.ops[0])]()], comparators=test.comparators)
+        return ast.copy_location(new, test)
+    new_ = ast.UnaryOp(op=ast.Not(), operand=test)
+    return ast.copy_location(new_, test)
+
+
 def inline_pure_temps(tree: ast.AST) -> int:
     """Normalisation: `t = a.b.c` (a pure attribute chain) immediately followed by a statement that uses `t` exactly
     once, with no other occurrence of `t` in the function, is folded back into that statement ("extract variable"
@@ -343,9 +450,11 @@ class Project:
             except SyntaxError as exc:
                 self.parse_errors.append(f"{rel}: {exc}")
                 continue
+            plain_annotated_locals(tree)
             inline_method_aliases(tree)
             inline_return_temps(tree)
             inline_pure_temps(tree)
+            normalise_conditionals(tree)
             set_parents(tree)
             modname = PKG + "." + rel[:-3].replace(os.sep, ".")
             is_pkg = False
